@@ -56,7 +56,7 @@ def gen(rng, tier):
                          gens.parse_cmd(3, b"/o/f.conf", b"k=1\nk=2\n", b"=", b"#"), "opts 3", "get 3 string - x6b -"], tags=("defaults",)))
     for _ in range(n):
         # join: repeated keys
-        keys = [b"k", b"k", b"k", b"other"]
+        keys = rng.choice([[b"k", b"k", b"k", b"other"], [b"ab", b"bA", b"ab", b"k"], [b"k", b"k", b"ac", b"bB"]])      # ab/bA, ac/bB: equal djb2 hashes
         lines, defs, cur = [], {}, None
         dense = rng.random() < 0.5        # half of the files re-open sections often: definitions of one key far apart
         for _ in range(rng.randrange(2, 14 if dense else 9)):
